@@ -97,24 +97,20 @@ class Tensor:
             if isinstance(s, slice):
                 if s.start is None and s.stop is None and s.step is None:
                     continue
-                if s.step is None or s.step > 0:
-                    sliced_indices.append(
-                        [
-                            s.start or 0,
-                            s.stop if s.stop is not None else shape[axis_],
-                            axis_,
-                            s.step or 1,
-                        ]
-                    )
-                else:
-                    sliced_indices.append(
-                        [
-                            s.start if s.start is not None else (shape[axis_] - 1),
-                            s.stop if s.stop is not None else -(shape[axis_] + 1),
-                            axis_,
-                            s.step,
-                        ]
-                    )
+                # NumPy's semantics for a slice are those of ``slice.indices`` (CPython's
+                # PySlice_AdjustIndices). Its result is rewritten in the conventions of ONNX Slice,
+                # which reads a negative bound as "counted from the end".
+                dim = shape[axis_]
+                start, stop, step = s.indices(dim)
+                if len(range(start, stop, step)) == 0:
+                    # Nothing is selected (e.g. X[-4::-1] on 3 elements, where CPython clamps the
+                    # start to -1): describe the empty selection unambiguously.
+                    start, stop = 0, 0
+                elif stop < 0:
+                    # A negative step that runs past the first element: CPython says -1, which
+                    # Slice would read as "the last element".
+                    stop = -(dim + 1)
+                sliced_indices.append([start, stop, axis_, step])
             elif isinstance(s, Tensor):
                 if s.is_scalar:
                     scalar_indices.append([s, s + 1, axis_, 1])
